@@ -62,6 +62,7 @@ func (s *JavaRefactorListener) EnterQualifiedNameList(ctx *QualifiedNameListCont
 		stopLine := ctx.GetStop().GetLine()
 		field := model.JField{Name: qualified.GetText(), Source: node.Pkg, StartLine: startLine, StopLine: stopLine}
 		node.AddField(field)
+		addQualifier(qualified.GetText(), startLine, stopLine)
 	}
 }
 
@@ -71,6 +72,7 @@ func (s *JavaRefactorListener) EnterCatchType(ctx *CatchTypeContext) {
 		stopLine := ctx.GetStop().GetLine()
 		field := model.JField{Name: qualified.GetText(), Source: node.Pkg, StartLine: startLine, StopLine: stopLine}
 		node.AddField(field)
+		addQualifier(qualified.GetText(), startLine, stopLine)
 	}
 }
 
@@ -118,6 +120,16 @@ func (s *JavaRefactorListener) EnterAnnotation(ctx *AnnotationContext) {
 
 	field := model.JField{Name: annotation, Source: node.Pkg, StartLine: startLine, StopLine: stopLine}
 	node.AddField(field)
+	addQualifier(annotation, startLine, stopLine)
+}
+
+// addQualifier records the first segment of a dotted name: in @Outer.Inner, "throws Outer.Inner" and
+// "catch (Outer.Inner e)" it is Outer that an import provides
+func addQualifier(name string, startLine int, stopLine int) {
+	if index := strings.Index(name, "."); index > 0 {
+		field := model.JField{Name: name[:index], Source: node.Pkg, StartLine: startLine, StopLine: stopLine}
+		node.AddField(field)
+	}
 }
 
 func (s *JavaRefactorListener) EnterLambdaParameters(ctx *LambdaParametersContext) {
